@@ -152,6 +152,37 @@ pub struct LazyMulti {
     pub uses: Vec<LazyUse>,
 }
 
+/// Through which view an element is overwritten (C13).
+#[derive(Clone, Copy, Debug, PartialEq, Eq)]
+pub enum ViewKind {
+    ElemMutTyped,
+    ElemMutBytes,
+    GetMutTyped,
+    TypedAtMut,
+    TypedGetMut,
+    TypedSlice,
+    VecBytes,
+    IterMutItem,
+    TIterMutItem,
+    /// `ElementMut::swap(&mut AnyValueWrapper)` (other side statically typed)
+    ElemSwapWrapper,
+    /// `AnyValueWrapper::swap(&mut ElementMut)` (self side statically typed)
+    WrapperSwapElem,
+    /// `ElementMut::swap(&mut AnyValueRaw)` (both erased)
+    ElemSwapRaw,
+    /// swap with element j of vector w through two `ElementMut`s
+    ElemSwapElem,
+    /// swap with the unconsumed `pop()` handle of vector w, which is then dropped
+    ElemSwapPopHandle,
+    /// swap with the unconsumed `remove(j)` handle of vector w, which is then pushed back to w
+    ElemSwapRemoveHandle,
+}
+pub const ALL_VIEWS: [ViewKind; 15] = [
+    ViewKind::ElemMutTyped, ViewKind::ElemMutBytes, ViewKind::GetMutTyped, ViewKind::TypedAtMut, ViewKind::TypedGetMut,
+    ViewKind::TypedSlice, ViewKind::VecBytes, ViewKind::IterMutItem, ViewKind::TIterMutItem, ViewKind::ElemSwapWrapper,
+    ViewKind::WrapperSwapElem, ViewKind::ElemSwapRaw, ViewKind::ElemSwapElem, ViewKind::ElemSwapPopHandle, ViewKind::ElemSwapRemoveHandle,
+];
+
 #[derive(Clone, Copy, Debug, PartialEq, Eq)]
 pub enum Target {
     Heap,
@@ -168,6 +199,8 @@ pub enum Op {
     IterScript { v: usize, how: IterHow, script: Vec<bool>, clone_at: Option<usize> },
     /// `clone_empty_in(target backend)`, move every element over and back (see rig)
     CloneEmptyIn { v: usize, target: Target },
+    /// overwrite / swap element `at` of vector `v` through the given view (C13)
+    ViewWrite { v: usize, at: usize, via: ViewKind, id: Id, w: usize, j: usize },
     Push { v: usize, src: Src },
     Insert { v: usize, at: usize, src: Src },
     Pop { v: usize, sink: Sink },
@@ -270,6 +303,7 @@ impl fmt::Display for Op {
                 f, "v{v}.{how:?}|{}|clone@{clone_at:?}", script.iter().map(|b| if *b { 'B' } else { 'F' }).collect::<String>()
             ),
             Op::CloneEmptyIn { v, target } => write!(f, "v{v}.clone_empty_in({target:?})"),
+            Op::ViewWrite { v, at, via, id, w, j } => write!(f, "v{v}[{}] <-{via:?}- #{id} (v{w}[{j}])", idstr(*at as u64)),
             Op::Push { v, src } => write!(f, "v{v}.push({src})"),
             Op::Insert { v, at, src } => write!(f, "v{v}.insert({},{src})", idstr(*at as u64)),
             Op::Pop { v, sink } => write!(f, "v{v}.pop()->{sink}"),
